@@ -275,3 +275,37 @@ Definition roundtrip_ok (s : st) : bool :=
       | _ => false
       end
   end.
+
+(* ------------------------------------------------------------------ argument ranges, as a decision procedure *)
+Definition nalus16b (l : list str) : bool := forallb (fun a => lenN a <? 65536) l.
+Definition no_nulb (l : str) : bool := forallb (fun c => negb (c =? 0)) l.
+
+Definition entry_okb (e : sentry) : bool :=
+  (se_dref e <? 65536) && (se_a e <? 65536) && (se_b e <? 65536) && (se_c e <? 65536) &&
+  match se_cfg e with
+  | CfgAvcC a =>
+      (bytes_eqb (se_name e) n_avc1 || bytes_eqb (se_name e) n_avc3)
+      && (ac_profile a <? 256) && (ac_compat a <? 256) && (ac_level a <? 256)
+      && (lenN (ac_sps a) <? 32) && (lenN (ac_pps a) <? 256) && nalus16b (ac_sps a) && nalus16b (ac_pps a)
+      && (ac_chroma a <? 4) && (ac_bdl a <? 8) && (ac_bdc a <? 8)
+  | CfgHvcC h =>
+      (bytes_eqb (se_name e) n_hvc1 || bytes_eqb (se_name e) n_hev1)
+      && match hvcrec_of h with
+         | Some r => hvcrec_ok r && (hr_level r <? 256) && forallb (fun a => fst a <? 256) (hr_arrays r)
+         | None => false
+         end
+  | CfgEsds _ => bytes_eqb (se_name e) n_mp4a
+  | CfgDac3 _ => bytes_eqb (se_name e) n_ac3
+  | CfgDec3 _ => bytes_eqb (se_name e) n_ec3
+  | CfgVttC _ => true
+  | CfgStpp _ _ _ => true
+  end.
+
+Definition trak_okb (t : trak) : bool :=
+  (tk_id t <? 4294967296) && (tk_volume t <? 65536) && (tk_width t <? 4294967296) && (tk_height t <? 4294967296)
+  && (md_timescale t <? 4294967296) && (md_lang t <? 65536) && (lenN (hd_type t) =? 4)
+  && match el_lang t with Some l => (2 <=? lenN l) && no_nulb l | None => true end
+  && (lenN (sd_entries t) <? 4294967296) && forallb entry_okb (sd_entries t).
+
+Definition args_okb (s : st) : bool :=
+  (next_id s <? 4294967296) && forallb (fun id => id <? 4294967296) (trexs s) && forallb trak_okb (traks s).
